@@ -36,6 +36,54 @@ func runC19(c *Ctx) {
 	c19R4(c)
 	c19R5(c)
 	c19R6(c)
+	c19R7(c)
+}
+
+// c19R7: (a) the extracted binary is handed on only after it was opened with the no-follow
+// regular-file guard; (b) a failed fetch of a declared signature or provenance bundle aborts the
+// install before the verifier is consulted.
+func c19R7(c *Ctx) {
+	r := c.R.Rule("R7", "K3 no-follow guard and declared bundles: extractAndGuard returns the extracted path only behind the success edge of openRegularNoFollow applied to that very path; fetchArtifactRef returns a reference only when every bundle fetch it attempted succeeded", 4)
+	if eg := c.SSA(r, pRegistry, "extractAndGuard"); eg != nil {
+		guard := c.Fn(r, pRegistry, "openRegularNoFollow")
+		extract := c.Fn(r, pRegistry, "ExtractBinary")
+		nilRets, _ := kit.NilReturns(eg)
+		g := kit.NewGates()
+		for _, gc := range kit.CallsTo(eg, Set(guard)) {
+			// applied to the path ExtractBinary returned
+			a := gc.Common().Args
+			okArg := false
+			for _, ec := range kit.CallsTo(eg, Set(extract)) {
+				if len(a) == 1 && kit.DerivesFrom(a[0], func(v ssa.Value) bool { return v == kit.ResultN(ec, 0) }) {
+					okArg = true
+				}
+			}
+			if okArg {
+				g.AddEdges(kit.OKEdges(gc), "openRegularNoFollow(binaryPath) ok")
+			}
+		}
+		if len(nilRets) == 0 {
+			c.R.Fail(r, "extractAndGuard: success return", c.Pos(eg.Pos()), "no success return found")
+		}
+		c.Dominated(r, "extractAndGuard: the extracted path is returned only after the no-follow regular-file guard accepted it", asInstrs(nilRets), g, "the success edge of openRegularNoFollow(extracted path) — a check that follows symlinks (os.Stat) is not this guard")
+	}
+	if fa := c.SSA(r, pRegistry, "fetchArtifactRef"); fa != nil {
+		fetch := c.Fn(r, pRegistry, "fetchBundle")
+		calls := kit.CallsTo(fa, Set(fetch))
+		c.R.Check(len(calls) >= 2, r, "fetchArtifactRef: fetches the signature and the provenance bundle", c.Pos(fa.Pos()), "ok", "fewer than two fetchBundle calls in fetchArtifactRef", false)
+		nilRets, _ := kit.NilReturns(fa)
+		for i, fc := range calls {
+			bad := false
+			for _, e := range kit.FailEdges(fc) {
+				for _, ret := range nilRets {
+					if kit.EdgeReaches(e, ret, nil) {
+						bad = true
+					}
+				}
+			}
+			c.R.Check(!bad && len(kit.FailEdges(fc)) > 0, r, "fetchArtifactRef: a failed bundle fetch aborts #"+itoa(i+1), c.Pos(fc.Pos()), "no success return behind the failure edge", "a success return of fetchArtifactRef is reachable behind the failure edge of a fetchBundle call: an entry that declares a signature/provenance bundle is handed to the verifier without it and can be accepted on the rest alone", true)
+		}
+	}
 }
 
 // okChain: every call of step[i+1] is dominated by the success edge of some call of step[i].
